@@ -658,7 +658,42 @@ func reportWorldViolation(prop string, m *Merged, mk func() Checker, kf *KnownFi
 	r1 := runWorld(&small, mk, kf, true)
 	r2 := runWorld(&small, mk, kf, false)
 	if r1.Viol == nil || r2.Viol == nil || r1.Viol.Clause != clause || r2.Viol.Clause != clause || r1.Viol.Step != r2.Viol.Step {
-		infra("minimised plan for %s does not reproduce deterministically", prop)
+		// The library carries state from call to call inside this process (a cache, a memo): what the
+		// shrinker's candidates left behind now decides whether the plan fails here. Settle it where
+		// replays are settled, in fresh processes: the minimised plan if it fails there, else the
+		// plan as found.
+		for k, cand := range []Plan{small, fv.Plan} {
+			cand := cand
+			rep := Replay{Property: prop, Clause: clause, Step: fv.V.Step, Witness: fv.V.Witness, Trace: planTrace(&cand), Plan: cand}
+			if k == 0 {
+				rep.Step = -1 // wherever the minimised plan fails in a fresh process
+			}
+			rep.Original.Seed, rep.Original.Run, rep.Original.Ops = fv.Plan.Seed, fv.Run, len(fv.Plan.Ops)
+			path := writeReplay(prop, &rep, fv.Run)
+			ok := true
+			var outb []byte
+			for n := 0; n < 2 && ok; n++ { // twice, each in its own process
+				cmd := exec.Command(os.Args[0], "-mode", "replay", "-file", path, "-verif", *fVerif, "-tmp", *fTmp)
+				var err error
+				outb, err = cmd.CombinedOutput()
+				ee, isExit := err.(*exec.ExitError)
+				ok = isExit && ee.ExitCode() == 1
+			}
+			if !ok {
+				os.Remove(path)
+				continue
+			}
+			fmt.Printf("sim: %s violated: clause %s (%s; the library keeps state between calls, so the plan was confirmed in fresh processes)\n", prop, clause, []string{"minimised plan", "plan as found: its minimised form does not fail in a fresh process"}[k])
+			fmt.Print(tailStr(string(outb), 6000))
+			if outs != nil {
+				writeWorldEvidence(prop, m, 1, t0)
+			}
+			if !strings.Contains(string(outb), "VIOLATION property="+prop) {
+				fmt.Printf("VIOLATION property=%s replay=%s\n", prop, path)
+			}
+			return 1
+		}
+		infra("violation of %s (%s, run %d) reproduces in this process but neither its minimised form nor the plan as found fails in fresh processes", prop, clause, fv.Run)
 	}
 	rep := Replay{Property: prop, Clause: clause, Step: r1.Viol.Step, Witness: r1.Viol.Witness, Trace: r1.Log, Plan: small}
 	rep.Original.Seed, rep.Original.Run, rep.Original.Ops = fv.Plan.Seed, fv.Run, len(fv.Plan.Ops)
@@ -752,7 +787,7 @@ func replay() int {
 	for _, l := range res.Log {
 		fmt.Println("   ", l)
 	}
-	if res.Viol != nil && res.Viol.Clause == rep.Clause && res.Viol.Step == rep.Step {
+	if res.Viol != nil && res.Viol.Clause == rep.Clause && (res.Viol.Step == rep.Step || rep.Step < 0) {
 		for _, k := range sortedWitness(res.Viol.Witness) {
 			fmt.Printf("    %s: %s\n", k, res.Viol.Witness[k])
 		}
